@@ -2,6 +2,7 @@ import FV.Props.Catalog
 import FV.IoArb
 import FV.IoRecvBad
 import FV.AddrIndep
+import FV.IoAsyncArb
 /-! # C10 — a receiver fed arbitrary bytes -/
 namespace FV.Props
 open FV
@@ -90,4 +91,14 @@ example : ∀ a, a % (Ty.vec .bool L8).dict.align = 0 → (Ty.vec .bool L8).dict
 /-- … and the loop on `[1,1] ++ [1,5] ++ [9,9]` in chunks of 1, 2, 3 bytes gives the message, then the parse error -/
 example : recvLoop (Ty.vec .bool L8).dict 2 [.deliver 1, .deliver 2, .deliver 3] ⟨0, 8, 0, []⟩ ([1,1] ++ ([1,5] ++ [9,9])) =
     [.msg [1,1], .parse ⟨.invalidData, 1⟩] := by decide +kernel
+
+/-- **C10 for the async receiver.** Whatever bytes arrive, in whatever chunks, with `Poll::Pending` any number of times anywhere: the
+async `recv` polled to an outcome (a message, a parse error, a read error, `OutOfMemory`, `Closed` — or the script running out) never
+faults; a guard it hands out covers valid bytes, and dropping it cannot trip the window assertion and re-establishes the buffer
+invariant. (Proved directly on the model of the async `recv`, not through the refinement: it also covers scripts on which the
+blocking receiver would not reach an outcome.) -/
+theorem C10_async_recv_never_faults (t : Ty) (h : t.WF) (evs : List AREv) (b : RBuf) (rest : Bytes) (hinv : RInv t.dict b) :
+    ∃ o b' rest' evs', arecv t.dict false evs b rest = (o, b', rest', evs') ∧ o ≠ .fault ∧
+      (∀ occ, o = .msg occ → ∃ b'', dropGuard t.dict b' = some b'' ∧ RInv t.dict b'') :=
+  arecv_never_faults t h evs b rest hinv
 end FV.Props
